@@ -2,7 +2,7 @@
 from .. import scriptprop
 
 ID = "C19"
-GEN = ["ChanShapes.lean"]   # function shapes regenerated from the source on every run (tie 4B)
+GEN = ["ChanShapes.lean"]   # regenerated from the source on every run (tie 4B): kernels / call shapes / function shapes
 SHRINK = False
 RULE = ("queued receivers: exhaustive capacity 0..5 x fill 0..cap x closed x limit 0..7 (exact against model and take/drop specification); timed helpers: one scenario per "
         "(capacity, fill, closed, timeout/context kind, peer behaviour) with 1-3 ms timers on the real code, the outcome must be in the outcome set the Lean scenario system allows and "
